@@ -282,6 +282,16 @@ class SimPool:
         self.polls = getattr(self, "polls", 0) + 1
         if self.polls > 200000:
             raise HarnessError("main thread polls the pool without end")
+        if not self._enabled():
+            # the main thread keeps polling although nothing can make progress any more: a busy-wait hang
+            self.dead_polls = getattr(self, "dead_polls", 0) + 1
+            if self.dead_polls > 2000:
+                self.sim.log("deadlock", pool=self.pool_id, waiting="poll:" + why, task=-1)
+                self.sim.deadlocks += 1
+                raise SimDeadlock(f"main thread keeps polling ({why}) although no event is enabled "
+                                  f"(pool state {self.state}): the real system would spin for ever")
+        else:
+            self.dead_polls = 0
         n = self.sim.chooser.choose(3, "tick")        # 0, 1 or 2 events
         # fairness: real workers do make progress while the main thread polls
         self.idle_ticks = getattr(self, "idle_ticks", 0) + 1 if n == 0 else 0
